@@ -171,9 +171,16 @@ def drive(tier):
                  b"\x04" + x + (P - int.from_bytes(y, "big")).to_bytes(32, "big"), b"\x00" + x, b"\x04" + bytes(64), b"\x02" + bytes(32)]
     for _ in range(20 if tier == "quick" else 400):
         cand.append(bytes([r.choice([2, 3])]) + gen.rbytes(r, 32))     # about half of random x are on the curve
-    for pk in cand:
+    vdig = gen.rbytes(r, 32)
+    vsig = ksig.sign(vdig)
+    for ci_, pk in enumerate(cand):
         kk, o = call(lambda: CPubKey(pk).is_fullyvalid)
         R.add("key.valid", {"pub": b2l(pk)}, {"k": "ret", "res": bool(o)} if kk == "ret" else dict(exc_info(o), k="exc"), _cost=300)
+        if ci_ % 2 == 0 or kk != "ret" or not o:
+            # a well-formed signature (of another key) checked under this candidate: never true for a non-point, false for a foreign point
+            kk2, res = call(lambda: CPubKey(pk).verify(vdig, vsig))
+            R.add("key.verify", {"pub": b2l(pk), "digest": b2l(vdig), "sig": b2l(vsig), "case": "candidate-key"},
+                  {"k": "ret", "res": bool(res)} if kk2 == "ret" else dict(exc_info(res), k="exc"), _cost=1000)
     return R.recs
 
 
